@@ -150,7 +150,11 @@ def run_property(pid, tier, seed):
             v["witness_error"] = str(e)
         listed = None
         for k in kf["finding"]:
-            if k.get("property") == pid and k.get("obligation") == v["obligation"]:
+            # a finding recorded for ANOTHER property also applies when its obligation lives in a unit that is
+            # here only through the ledger closure (e.g. C03 assumes gascalc::exp_cost; gascalc's deliberately
+            # failing `__finding_` twins are C14's findings, not violations of C03)
+            if k.get("obligation") == v["obligation"] and (
+                    k.get("property") == pid or v["unit"] not in P.get("units", [])):
                 listed = k
         if listed:
             known_lines.append(f"KNOWN-FINDING: property={pid} {listed['_text']}")
